@@ -298,53 +298,50 @@ fn delivered_probe_resegmented(sc: &Scenario, out: &RunOutput, v: &Violation, ex
     })
 }
 
-/// Delivered data packets S (sender, packet) for which, at some instant up to `until`, an ACK
-/// naming S reached the sender while its end-of-poll snapshot (the last one before the ACK, or
-/// the one of the poll that handles it) showed last_sent_seq_nr < S and a largest segment size
-/// below the length S was delivered with: S was an MTU probe that the sender had taken back
-/// as failed (it counts as never sent, its bytes will be cut again in another length) although
-/// the peer had received it.
+/// Delivered data packets S (sender, packet) that their sender took back as a failed MTU probe
+/// and that were acknowledged afterwards, up to `until`. "Taken back": an end-of-poll snapshot
+/// of the sender shows the search's upper bound (largest segment size) lower than in its
+/// previous snapshot - a probe was declared lost in that poll - and a send position below S,
+/// although S had been delivered (only the probe, the newest segment, can lie beyond the send
+/// position then). "Acknowledged afterwards": a later packet to the sender covers S cumulatively
+/// or selectively. The sender takes that acknowledgement for the re-cut, never-sent version of
+/// S (another length) and goes on from the wrong stream offset.
 pub fn taken_back_probes(out: &RunOutput, until: u64) -> Vec<(std::net::SocketAddr, std::sync::Arc<crate::codec::Pkt>)> {
     use crate::hist::Ev;
     use std::collections::HashMap;
     let evs = &out.hist.evs;
     let end = evs.partition_point(|(t, _)| *t <= until);
     let mut seen_by_src: HashMap<std::net::SocketAddr, HashMap<u16, std::sync::Arc<crate::codec::Pkt>>> = Default::default();
-    let mut last_snap: HashMap<std::net::SocketAddr, (u16, u16)> = Default::default();
-    let mut acks_this_instant: Vec<&crate::hist::Deliver> = vec![];
-    let mut cur_t = u64::MAX;
+    let mut prev_snap: HashMap<(std::net::SocketAddr, u16), u16> = Default::default(); // (local, send id) -> max_ss
+    let mut popped: HashMap<std::net::SocketAddr, Vec<std::sync::Arc<crate::codec::Pkt>>> = Default::default();
     let mut res: Vec<(std::net::SocketAddr, std::sync::Arc<crate::codec::Pkt>)> = vec![];
-    let named = |set: Option<&HashMap<u16, std::sync::Arc<crate::codec::Pkt>>>, d: &crate::hist::Deliver, snap: (u16, u16)| -> Vec<std::sync::Arc<crate::codec::Pkt>> {
-        let Some(set) = set else { return vec![] };
-        let (last_sent, max_ss) = snap;
-        acked_seqs(d.pkt.as_ref().unwrap()).iter().filter_map(|q| set.get(q).filter(|p| (max_ss as usize) < p.payload.len() && crate::util::seq_lt(last_sent, *q)).cloned()).collect()
-    };
-    for (t, ev) in &evs[..end] {
-        if *t != cur_t {
-            cur_t = *t;
-            acks_this_instant.clear();
-        }
+    for (_, ev) in &evs[..end] {
         match ev {
             Ev::Probe(librqbit_utp::verif::ProbeEvent::ConnPoll(sn)) => {
-                let snap = (sn.last_sent_seq_nr, sn.max_ss);
-                for d in acks_this_instant.iter().filter(|d| d.dst == sn.key.local) {
-                    for p in named(seen_by_src.get(&d.dst), d, snap) {
-                        res.push((d.dst, p));
+                let k = (sn.key.local, sn.key.conn_id_send);
+                if prev_snap.get(&k).is_some_and(|pm| sn.max_ss < *pm) {
+                    if let Some(set) = seen_by_src.get(&sn.key.local) {
+                        for (q, p) in set {
+                            if p.conn_id == sn.key.conn_id_send && crate::util::seq_lt(sn.last_sent_seq_nr, *q) && crate::util::seq_diff(*q, sn.last_sent_seq_nr) < 64 {
+                                popped.entry(sn.key.local).or_default().push(p.clone());
+                            }
+                        }
                     }
                 }
-                last_snap.insert(sn.key.local, snap);
+                prev_snap.insert(k, sn.max_ss);
             }
             Ev::Deliver(d) if !d.corrupted && d.pkt.is_some() => {
                 let p = d.pkt.as_ref().unwrap();
                 if p.typ == crate::codec::ST_DATA {
                     seen_by_src.entry(d.src).or_default().entry(p.seq).or_insert_with(|| p.clone());
                 }
-                if let Some(ls) = last_snap.get(&d.dst) {
-                    for p in named(seen_by_src.get(&d.dst), d, *ls) {
-                        res.push((d.dst, p));
+                if let Some(list) = popped.get_mut(&d.dst) {
+                    let (hit, rest): (Vec<_>, Vec<_>) = list.drain(..).partition(|s| crate::oracles::c14::acked_by(p, s.seq) && crate::util::seq_diff(p.ack.wrapping_add(70), s.seq) >= 0 && crate::util::seq_diff(s.seq, p.ack) > -1000);
+                    for s in hit {
+                        res.push((d.dst, s));
                     }
+                    *list = rest;
                 }
-                acks_this_instant.push(d);
             }
             _ => {}
         }
